@@ -182,8 +182,8 @@ pub fn nice_param(rng: &mut Rng, spec: &ModelSpec, k: usize, xmax: f64) -> f64 {
     match role(spec, k) {
         (Family::ExpTau, _) => rng.range(0.15, 1.2) * xmax,
         (Family::ExpRate, _) => rng.range(0.3, 4.0) / xmax,
-        (Family::Gauss, 0) => rng.range(0.2, 0.8) * xmax,
-        (Family::Gauss, _) => rng.range(0.08, 0.35) * xmax,
+        (Family::Gauss | Family::TanhStep, 0) => rng.range(0.2, 0.8) * xmax,
+        (Family::Gauss | Family::TanhStep, _) => rng.range(0.08, 0.35) * xmax,
         (Family::DampCos | Family::DampSin | Family::PhaseCos, 0) => rng.range(0.1, 2.0) / xmax,
         (Family::DampCos | Family::DampSin | Family::PhaseCos, 1) => rng.range(2.0, 9.0) / xmax,
         (Family::PhaseCos, _) => rng.range(-2.5, 2.5),
@@ -575,6 +575,13 @@ pub fn base_scenario(
         let f = model.funcs[j].clone();
         model.funcs.push(f);
     }
+    // the family that is sensitive to the sign of a zero parameter replaces a two-parameter
+    // function in 1 scenario of 25 (hash-selected: no draw from the main stream)
+    if crate::prng::mix(seed, "tanh-step", index) % 25 == 0 {
+        if let Some(f) = model.funcs.iter_mut().find(|f| f.family.arity() == 2) {
+            f.family = Family::TanhStep;
+        }
+    }
     let m = model.m();
     let p = model.nparams;
     let mrhs = if corner { rng.chance(0.7) } else { rng.chance(0.35) };
@@ -589,7 +596,15 @@ pub fn base_scenario(
     };
     // exact multiples of the usual block sizes are where remainder handling goes wrong
     let (mrhs, s) = if giant == 2 {
-        (true, if rng.chance(0.4) { *rng.pick(&[64usize, 128]) } else { rng.usize_in(64, 130) })
+        (
+            true,
+            if rng.chance(0.35) {
+                *rng.pick(&[16usize, 17, 32, 33, 64, 64, 65, 128])
+            } else {
+                // log-uniform over 11..130: also the gap between the ordinary bound (10) and 64
+                (11.0 * (130.0f64 / 11.0).powf(rng.unit())) as usize
+            },
+        )
     } else {
         (mrhs, s)
     };
@@ -599,7 +614,15 @@ pub fn base_scenario(
     } else if giant == 2 {
         rng.usize_in((m + p + 1).min(24), 24)
     } else if giant == 3 {
-        65536 / m.max(1) + rng.usize_in(0, 2000)
+        if rng.chance(0.3) {
+            // exact multiples of a block size (remainder handling), from one block upwards
+            4096 * *rng.pick(&[1usize, 2, 3, 4, 8, 16])
+        } else if rng.chance(0.3) {
+            // between the ordinary bound and 2^16 elements: 4k..30k samples
+            rng.usize_in(4097, 30000)
+        } else {
+            65536 / m.max(1) + rng.usize_in(0, 2000)
+        }
     } else if rng.chance(if corner { 0.25 } else { 0.03 }) {
         // square or wide basis matrix: as many basis functions as samples, or more
         rng.usize_in(1, m.max(1))
@@ -639,6 +662,23 @@ pub fn base_scenario(
         builder_order: if rng.chance(0.5) { 0 } else { rng.below(6) as u8 },
     };
     let mut sc = sc;
+    // a positive truncation threshold far below machine epsilon, in half of the cases together
+    // with weights so small that every singular value of the weighted basis lies between the
+    // two (1 scenario in 40, hash-selected): nothing may be truncated
+    let th = crate::prng::mix(seed, "tiny-epsilon", index);
+    if th % 40 == 0 {
+        let u1 = ((th >> 8) % 1000) as f64 / 1000.0;
+        let u2 = ((th >> 24) % 1000) as f64 / 1000.0;
+        let (e_lo, e_hi, w_lo, w_hi) = match width {
+            Width::F64 => (-60.0, -30.0, -25.0, -17.0),
+            Width::F32 => (-34.0, -22.0, -14.0, -9.0),
+        };
+        sc.eps = Some(Fx(rw(width, 10f64.powf(e_lo + (e_hi - e_lo) * u1))));
+        if (th >> 40) % 2 == 0 {
+            let c = rw(width, 10f64.powf(w_lo + (w_hi - w_lo) * u2));
+            sc.weights = Some(vec![Fx(c); sc.x.len()]);
+        }
+    }
     if giant != 0 {
         // keep one giant scenario affordable: few optimizer iterations
         sc.opt.patience = sc.opt.patience.min(3);
